@@ -92,6 +92,12 @@ def build(d: Path, toml_link: bool = False) -> Path:
     (root / "docs" / "readme.md").write_text("# readme\n")
     (root / "ro.txt").write_text("read only\n")
     os.chmod(root / "ro.txt", 0o444)
+    # a registered Git submodule (skipped by default, from whatever directory the tool is started)
+    (root / "vendor-sm" / "pkg").mkdir(parents=True)
+    (root / "vendor-sm" / "pkg" / "inner.py").write_text("inner = 1\n")
+    (root / ".gitmodules").write_text('[submodule "vendor-sm"]\n\tpath = vendor-sm\n\turl = https://example.com/vendor-sm.git\n')
+    # an unrelated file that happens to be called like a scratch copy of another one
+    (root / "src" / "a.py.tmp").write_text("not a scratch file: notes that belong to the project\n")
     if toml_link:           # a REUSE.toml that is a symbolic link is not configuration - and not to be written through
         (sent / "precious.txt").write_text("outside content that convert-dep5 must leave alone\n")
         os.symlink("../sentinel/precious.txt", root / "REUSE.toml")
@@ -147,7 +153,7 @@ def run_case(case: dict) -> list:
             return c19._Resp(c19.body_of(ident).encode())
         urllib.request.urlopen = fake
         for k, c in enumerate(case["hist"], 1):
-            lr = core.run_reuse(["--root", str(root), "--no-multiprocessing", "lint", "--json"])
+            lr = core.run_reuse(["--root", str(root), "--no-multiprocessing", "lint", "--json"], cwd=root)
             try:
                 covered = sorted(f["path"] for f in json.loads(lr["out"])["files"])
             except Exception:  # noqa: BLE001
@@ -155,6 +161,8 @@ def run_case(case: dict) -> list:
             symlinks = sorted(x.relative_to(root).as_posix() for x in root.rglob("*") if x.is_symlink())
             s0, o0 = snap(root), snap(d / "sentinel")
             args, cwd = command_line(root, c)
+            if case["tid"] % 2:            # every path is given absolutely: the directory the tool is started in must not matter
+                cwd = d
             r = core.run_reuse(args, cwd=cwd)
             s1, o1 = snap(root), snap(d / "sentinel")
             changed, created, removed = diff(s0, s1)
